@@ -5,7 +5,9 @@
 (*                           parse back to it (the obligation of Serializer.tla can be met);             *)
 (*            ImplConforms - the transcribed escaping rules of FormatterToXMLUnicode (SerializerImpl)    *)
 (*                           meet the obligation on every string that triggers no named known deviation; *)
-(*            KDsAreReal   - every named deviation does break the obligation on its witness.             *)
+(*            KDsAreReal   - every named deviation does break the obligation on its witness;            *)
+(*            LegacyConformsInv - the same for the transcription of the older FormatterToXML (second half   *)
+(*                           of SerializerImpl), with its own named deviations.                           *)
 (*   TokSpec  every token sequence of length <= MaxLen (literal / reference over the alphabet, CDATA     *)
 (*            open / close): whatever parses is representable (Representable is not too strict).         *)
 EXTENDS SerializerImpl
@@ -37,17 +39,30 @@ SpecSound ==
 ImplConforms ==
   (Contract(x.ctx, x.s) /\ ~AnyKD(x.ctx, x.s, x.o)) => Conforms(x.ctx, x.s, x.o)
 
+LegacyConformsInv ==
+  (Contract(x.ctx, x.s) /\ ~AnyLegacyKD(x.ctx, x.s, x.o)) => LegacyConforms(x.ctx, x.s, x.o)
+
 Latin1 == [ver |-> V10, enc |-> "ISO-8859-1"]
 Latin1v11 == [ver |-> V11, enc |-> "ISO-8859-1"]
 Utf8 == [ver |-> V10, enc |-> "UTF-8"]
 Utf8v11 == [ver |-> V11, enc |-> "UTF-8"]
 Utf16 == [ver |-> V10, enc |-> "UTF-16"]
+Ascii == [ver |-> V10, enc |-> "US-ASCII"]
+Gb == [ver |-> V10, enc |-> "GB18030"]
+Gbv11 == [ver |-> V11, enc |-> "GB18030"]
 Real(kd(_, _, _), ctx, p, o) == kd(ctx, p, o) /\ ~Conforms(ctx, p, o)
+RealL(kd(_, _, _), ctx, p, o) == kd(ctx, p, o) /\ ~LegacyConforms(ctx, p, o)
 KDsAreRealDef ==
   /\ Real(KD_rawLineEndInCommentOrPI, "comment", <<97, CR>>, Utf8)
   /\ Real(KD_rawLineEndInCommentOrPI, "pi", <<LSEP>>, Utf8v11)
-  /\ Real(KD_xml11RestrictedInCdataElementRejected, "cdata", <<1>>, Utf8v11)
-  /\ Real(KD_xml11RestrictedInCdataElementRejected, "cdata", <<97, 159>>, Latin1v11)
+  /\ RealL(KD_legacyRawLineEndInCommentOrPI, "comment", <<97, CR>>, Utf8)
+  /\ RealL(KD_legacyRawLineEndInCommentOrPI, "pi", <<NEL>>, Gbv11)
+  /\ RealL(KD_legacyControlRawInCdataCommentPI, "cdata", <<1>>, Utf8)
+  /\ RealL(KD_legacyControlRawInCdataCommentPI, "comment", <<97, 159>>, Latin1v11)
+  /\ RealL(KD_legacyLoneSurrogateWritten, "text", <<97, 56320>>, Utf8)
+  /\ RealL(KD_legacyLoneSurrogateWritten, "attr", <<56320>>, Latin1)
+  /\ RealL(KD_legacyNonCharacterWritten, "text", <<65534>>, Utf8)
+  /\ RealL(KD_legacyNonCharacterWritten, "cdata", <<65534>>, Latin1)
 (* repaired classes stay repaired: the inputs that used to break the obligation now meet it *)
 RepairedDef ==
   /\ Conforms("text", <<97, 56320>>, Utf8) /\ Conforms("attr", <<56320>>, Latin1) /\ Conforms("text", <<55296, 97>>, Utf16)
@@ -56,6 +71,16 @@ RepairedDef ==
   /\ Conforms("comment", <<8364>>, Latin1) /\ Conforms("pi", <<97, 8364>>, Latin1)
   /\ Conforms("comment", <<TAB>>, Utf8v11) /\ Conforms("cdata", <<97, TAB>>, Latin1v11)
   /\ Conforms("cdata", <<97, 8364>>, Latin1) /\ Conforms("cdata", <<8364, RSB, RSB, GT>>, Latin1)
+  /\ Conforms("cdata", <<1>>, Utf8v11) /\ Conforms("cdata", <<97, 159>>, Latin1v11)                   \* xml11RestrictedInCdataElementRejected
+  (* the older serializer *)
+  /\ LegacyConforms("attr", <<97, TAB, 97>>, Utf8) /\ LegacyConforms("text", <<CR>>, Latin1)          \* legacyXml10WhitespaceRejected
+  /\ LegacyConforms("text", <<NEL>>, Utf8) /\ LegacyConforms("attr", <<LSEP>>, Ascii)                  \* legacyXml10NelLsepRejected
+  /\ LegacyConforms("text", <<LSEP>>, Utf8v11) /\ LegacyConforms("attr", <<159>>, Latin1v11)           \* legacyXml11RestrictedRawInTextOrAttr
+  /\ LegacyConforms("cdata", <<8364, 97>>, Latin1) /\ LegacyConforms("cdata", <<97, 128512>>, Latin1)
+  /\ LegacyConforms("cdata", <<8364, RSB, RSB, GT>>, Latin1)                                          \* legacyCdataUnencodableMishandled
+  /\ LegacyConforms("cdata", <<97, CR, LF>>, Utf8) /\ LegacyConforms("cdata", <<LSEP>>, Utf8v11)       \* legacyRawLineEndInCdataSection
+  /\ LegacyConforms("comment", <<8364>>, Latin1) /\ LegacyConforms("pi", <<128512>>, Ascii)
+  /\ LegacyConforms("comment", <<8364>>, Gb) /\ LegacySer("comment", <<8364>>, Gb) = <<Lit(8364)>>    \* legacyCharRefInCommentOrPI
 ASSUME KDsAreReal == KDsAreRealDef
 ASSUME Repaired == RepairedDef
 
